@@ -891,6 +891,18 @@ func (u *Unit) refOfComp(comp, term string) (sel, binders string, refs []string)
 
 const allocComp = "$alloc"
 
+// heldComp: how many times each mutex is held (index 2*ref: write lock, 2*ref+1: read lock). Locks do not
+// order anything in this model (each function runs atomically); the counter exists so that a function
+// marked safe can be shown to release on every return path what it acquired (a leaked lock hangs the node).
+const heldComp = "$held"
+
+func (u *Unit) ensureHeldComp() {
+	if _, ok := u.heapSorts[heldComp]; !ok {
+		u.heapSorts[heldComp] = "(Array Int Int)"
+		u.heapKinds[heldComp] = "held"
+	}
+}
+
 func (u *Unit) ensureAllocComp() {
 	if _, ok := u.heapSorts[allocComp]; !ok {
 		u.heapSorts[allocComp] = "(Array Int Bool)"
